@@ -45,7 +45,8 @@ PRELUDE = r"""
 #endif
 /* stand-ins for C++ library types that occur as fields (their operations are rewritten per suite or stubbed) */
 typedef struct rxv_vector { void* data; size_t size; } rxv_vector;
-typedef struct rxv_string { const char* data; size_t size; } rxv_string;
+typedef struct rxv_string { const char* data; size_t size; unsigned long long id; /* abstract identity of the byte string: equal ids <=> equal strings */ } rxv_string;
+#define rxv_string_eq(a, b) ((a)->id == (b)->id)
 #define RXV_SWAP(a, b) do { __typeof__(a) rxv_tmp_ = (a); (a) = (b); (b) = rxv_tmp_; } while (0)
 #define RXV_MAX(a, b) ((a) > (b) ? (a) : (b))
 #define RXV_MIN(a, b) ((a) < (b) ? (a) : (b))
